@@ -13,7 +13,7 @@ from props import wirelib as W
 
 M32, M64 = (1 << 32) - 1, (1 << 64) - 1
 COQ_FILES = ["Common/RustInt.v", "Shard/PgSpec.v", "Shard/HashProofs.v", "Shard/Paths.v",
-             "Shard/PathsProofs.v", "Shard/Sha1.v", "Shard/Sha1Proofs.v", "Shard/Props.v"]
+             "Shard/PathsProofs.v", "Shard/Sha1.v", "Shard/Sha1Proofs.v", "Shard/Spellings.v", "Shard/Props.v"]
 
 
 # ---- independent oracle: PostgreSQL hashfn.c / hashfunc.c transcribed to Python -----------
@@ -509,6 +509,13 @@ def check_paths(run, router, keys, quick, samples, distinct):
     # malformed / unusual spellings: the real text paths vs the Coq path model (Key k / NoKey / Panics)
     n = 5
     spell = spell_extra + [str(k).encode() for k in sub[:40]]
+    # the spellings the theorems c06_leading_zeros / c06_plus_sign / c06_out_of_range_never_wraps speak about,
+    # on boundary and sampled keys (k >= 0 for the digit-only captures; signed zero-padded forms for text Bind)
+    for j, k in enumerate([0, 7, 2 ** 31, 2 ** 63 - 1] + [abs(x) for x in sub[40:52]]):
+        z = b"0" * (1 + j % 5 + (18 if j % 4 == 3 else 0))
+        spell += [z + str(k).encode(), b"+" + str(k).encode(), b"+" + z + str(k).encode(), b"-" + z + str(k).encode()]
+    spell += [b"0" * 25, b"00009223372036854775808", b"18446744073709551616", b"18446744073709551621", b"-0", b"+0", b"-00"]
+    spell = list(dict.fromkeys(spell))
     exprs, cases = [], []
     S = {"shards": n, "func": "pg", "parser": True, "splitting": True, "auto_key": "data.id", "key_regex": r"/\* sharding_key: (\d+) \*/"}
     for s in spell:
